@@ -153,7 +153,10 @@ TRUSTED_BASE = [
     'calculate_specificity, _evaluate_fields are pure functions of their arguments that raise at most ExpressionError (purity: C07 frames; raises: C08)',
 ]
 ASSUMPTIONS = ['A12 rule evaluation is a pure function of (expression text, transaction, variables, data rows) - hypothesis here, obligation of C07/C08',
-               'regular expressions opaque (A6)']
+               'regular expressions opaque (A6)',
+               'legacy CSV loop of normalize_merchant: the rows are the 7-tuples get_all_rules builds (all three of its branches do); _is_expression_pattern, '
+               'matches_transaction, re.search (may raise re.error / OverflowError / RecursionError) and check_all_conditions (raises nothing) are uninterpreted '
+               'deterministic functions of the pattern / parsed modifiers for the transaction at hand; field transforms are not applied in that harness (C01_transforms)']
 EXPLANATION = ('Loop invariants (Filt/First/TagsU ghost functions) on the real MerchantEngine.match and on the legacy tuple loop of normalize_merchant; '
                'property-level postconditions taken from the statement; least-index, suffix-irrelevance and non-influence lemmas by induction. '
                'Bounded stand-in (labelled): small-scope differential run on real rule files.')
